@@ -266,7 +266,7 @@ fn casing_masks(k: u32, tier: Tier) -> Vec<u64> {
 
 // ======================================================================================= C14
 
-fn write_toml(path: &Path, dir: &str, o: &[String], v: &[String], q: &[String]) {
+pub fn write_toml(path: &Path, dir: &str, o: &[String], v: &[String], q: &[String]) {
     let l = |xs: &[String]| xs.iter().map(|x| format!("\"{}\"", x.replace('\\', "\\\\").replace('"', "\\\""))).collect::<Vec<_>>().join(", ");
     let t = format!("path = '{}'\noptimizations = [{}]\nvulnerabilities = [{}]\nqa = [{}]\n", dir, l(o), l(v), l(q));
     std::fs::write(path, t).unwrap();
